@@ -52,17 +52,19 @@ KINDS = c20.KINDS
 OBJ = sorted(KINDS)
 
 
-def _sel(rng):
+def _sel(rng, focus=None):
+    if focus is not None and rng.random() < 0.5:
+        return focus, KINDS[focus]
     k = rng.choice(OBJ)
     return k, KINDS[k]
 
 
-def gen_request(rng):
+def gen_request(rng, focus=None):
     """One request from the grammar.  Returns dict(data=latin-1 str, tls, half_close, label, kind)."""
     r = rng.random()
     half_close = rng.random() < 0.8
     if r < 0.45:
-        kind, sel = _sel(rng)
+        kind, sel = _sel(rng, focus)
         p = rng.choice(c20.PROTOS + ["wap-auto"])
         search = rng.choice([None, None, None, "needle", "two words"])
         req, tls = proto.make_request(p, sel, search)
@@ -174,6 +176,11 @@ def gen_request(rng):
         ("spartan-four-fields", b"h " + q + b" 0 x\r\n", False),
         ("spartan-tls", b"h " + q + b" 0\r\n", True),
         ("spartan-unicode-digit", b"h " + q + b" \xb2\r\n", False),
+        ("spartan-utf8-superscript", b"h " + q + b" \xc2\xb2\r\n", False),
+        ("spartan-utf8-circled", b"h " + q + b" \xe2\x91\xa0\r\n", False),
+        ("spartan-utf8-arabic-digit", b"h " + q + b" \xd9\xa3\r\n", False),
+        ("spartan-utf8-path", "h /caf\u00e9 0\r\n".encode("utf-8"), False),
+        ("spartan-utf8-host", "h\u00f4st /docs 0\r\n".encode("utf-8"), False),
         ("spartan-rel-path", b"h docs 0\r\n", False),
     ]
     label, data, tls = rng.choice(forms)
@@ -190,8 +197,10 @@ def gen(seed, index, tier):
     rng = random.Random(seed)
     n = rng.randrange(4, 17)
     hist = []
+    # half of the valid requests of a history address the same object (in different protocols)
+    focus = rng.choice(["menu", "menu-root", "menu-root", "zip-listing", "mbox-folder", "gophermap", None])
     for i in range(n):
-        rq = gen_request(rng)
+        rq = gen_request(rng, focus)
         nb = len(rq["data"])
         rq["segments"] = sorted(rng.sample(range(1, max(2, nb)), min(rng.choice([0, 0, 0, 1, 2]), max(0, nb - 1))))
         rq["delays"] = [rng.choice([0.0, 0.0, 0.01, 1.0]) for _ in range(len(rq["segments"]) + 1)]
